@@ -535,7 +535,20 @@ def run(ctx):
         gots = C.pmap(_impl_chunk, chunk, chunksize=32)
         for j, (case, got) in enumerate(zip(chunk, gots)):
             if isinstance(got, str):
-                raise RuntimeError("harness crash on %r: %s" % (case, got))
+                # the read queries of the implementation produced something that cannot even be
+                # canonicalised (foreign / non-comparable "nodes", broken views): on the unchanged tree this
+                # never happens, so it is reported as a failing history, not as an infrastructure error
+                ops = case["ops"]
+                k = len(ops)
+                for kk in range(1, len(ops) + 1):
+                    if isinstance(_impl_chunk(dict(case, ops=ops[:kk])), str):
+                        k = kk
+                        break
+                out.violation(dict(case, ops=ops[:k]),
+                              {"kind": "observation-crash", "detail": "a read query returned a value that could not be "
+                               "canonicalised / raised inside the observation of the state: " + got})
+                bad_spec.append((case, (k - 1, "observation-crash")))
+                continue
             spec, model = lean_blocks(ans[j]), lean_blocks(ans[len(chunk) + j])
             ds, dm = diff(case, got, spec), diff(case, got, model)
             fs = features(case["ops"])
